@@ -614,4 +614,7 @@ class Ctx:
             with mpctx.Pool(workers, maxtasksperchild=8) as pool:
                 for i, s in pool.imap_unordered(_run_job, range(len(self.jobs)), chunksize=1):
                     out[i] = s
+                    if os.environ.get("VERIF_PROGRESS"):
+                        sys.stderr.write("[%6.1fs] %s: %d paths, %d goals, %.1fs, errors=%d\n" % (
+                            time.time() - self.t0, self.jobs[i].name, s["paths"], len(s["results"]), s.get("wall_s", 0), len(s["errors"])))
         return out
